@@ -9,9 +9,11 @@ theorem flat_addGroupIfMissing (gs : List (String × List Nat)) (g : String) : f
   · rfl
   · simp
 
-theorem freshReq_newReq (kind stars group sp remaining items nc) :
+theorem freshReq_newReq (kind stars group sp remaining items nc)
+    (h1 : kind = .apply → items = []) (h2 : kind = .map → remaining = 0) :
     FreshReq (newReq kind stars group sp remaining items nc) :=
-  ⟨⟨nc, rfl, by simp [newReq, grantsL, Req.pend]⟩, fun _ h => by simp [newReq] at h⟩
+  ⟨⟨nc, rfl, by simp [newReq, grantsL, Req.pend]⟩, fun _ h => by simp [newReq] at h,
+    ⟨rfl, rfl, rfl, rfl, fun h => by simp [Req.cnt, newReq, h1 h], fun h => h2 h⟩, Or.inl rfl⟩
 
 /-- registering a request whose own books are balanced -/
 theorem tame_register (p : Pool) (r : Req) (hr : FreshReq r) : Tame p (p.register r) := by
@@ -34,15 +36,15 @@ theorem tame_register (p : Pool) (r : Req) (hr : FreshReq r) : Tame p (p.registe
 
 theorem tame_doApply (p : Pool) (num group sp) : Tame p (p.doApply num group sp).1 := by
   unfold doApply
-  repeat' (first | exact Tame.refl _ | exact tame_register _ _ (freshReq_newReq ..) | split | dsimp only)
+  repeat' (first | exact Tame.refl _ | exact tame_register _ _ (freshReq_newReq _ _ _ _ _ _ _ (by simp) (by simp)) | split | dsimp only)
 
 theorem tame_doMap (p : Pool) (stars items nc group sp) : Tame p (p.doMap stars items nc group sp).1 := by
   unfold doMap
-  repeat' (first | exact Tame.refl _ | exact tame_register _ _ (freshReq_newReq ..) | split | dsimp only)
+  repeat' (first | exact Tame.refl _ | exact tame_register _ _ (freshReq_newReq _ _ _ _ _ _ _ (by simp) (by simp)) | split | dsimp only)
 
 theorem tame_doStart (p : Pool) (num) : Tame p (p.doStart num).1 := by
   unfold doStart
-  repeat' (first | exact Tame.refl _ | (refine Tame.trans ?_ (tame_register _ _ (freshReq_newReq ..)); exact tame_of_eq _ _ rfl rfl) | split | dsimp only)
+  repeat' (first | exact Tame.refl _ | (refine Tame.trans ?_ (tame_register _ _ (freshReq_newReq _ _ _ _ _ _ _ (by simp) (by simp))); exact tame_of_eq _ _ rfl rfl) | split | dsimp only)
 
 theorem tame_doCancel (p : Pool) (ids) : Tame p (p.doCancel ids).1 := by
   unfold doCancel
@@ -67,7 +69,7 @@ theorem tame_cancelGroupMetas (p : Pool) (g) : Tame p (p.cancelGroupMetas g) := 
   simp only
   refine Tame.trans (tame_foldl _ _ (fun p m => tame_metaCancel p m) p) (tame_of_map _ _ _ rfl rfl rfl ?_)
   intro x
-  split <;> exact ⟨rfl, rfl, rfl, Nat.le_refl _, fun h => h⟩
+  split <;> exact ⟨rfl, rfl, rfl, Nat.le_refl _, fun h => h, rfl, Or.inl rfl⟩
 
 theorem tame_cancelGroupBody (p p' : Pool) (g ids order) (h : p.cancelGroupBody g ids order = some p') : Tame p p' := by
   unfold cancelGroupBody at h
